@@ -311,7 +311,7 @@ func (n *c18Net) deepIndex() string {
 // c18DeepTables: holds as the hold genesis has them, the marker accounts of the auth genesis, the
 // record addresses of every record named in any of the genesis values, the holders of the scope
 // coins (the exported scopes carry them; the bank genesis holds the coins).
-func c18DeepTables(cdc codec.Codec, st map[string]json.RawMessage, holds hold.GenesisState, base c18Deep, gs ...c18Deep) string {
+func c18DeepTables(cdc codec.Codec, st map[string]json.RawMessage, holds hold.GenesisState, stateMarkers string, base c18Deep, gs ...c18Deep) string {
 	var held, pre, nums, recs, vo []string
 	for _, h := range holds.Holds {
 		for _, c := range h.Amount {
@@ -352,8 +352,8 @@ func c18DeepTables(cdc codec.Codec, st map[string]json.RawMessage, holds hold.Ge
 			vo = append(vo, fmt.Sprintf("(%s, %s)", hx(s.ScopeId.Bytes()), hx(a)))
 		}
 	}
-	return fmt.Sprintf("{| dt_held := %s; dt_pre_markers := %s; dt_accnums := %s; dt_next_acc := %s; dt_rec_addrs := %s; dt_vo0 := %s; dt_blocked := [] |}",
-		coqList(held), coqList(pre), coqList(nums), c18N(nextAcc), coqList(recs), coqList(vo))
+	return fmt.Sprintf("{| dt_held := %s; dt_pre_markers := %s; dt_accnums := %s; dt_next_acc := %s; dt_rec_addrs := %s; dt_vo0 := %s; dt_blocked := []; dt_state_markers := %s |}",
+		coqList(held), coqList(pre), coqList(nums), c18N(nextAcc), coqList(recs), coqList(vo), stateMarkers)
 }
 
 // ---------- perturbed genesis of the three modules ----------
@@ -542,7 +542,7 @@ func c18DeepPerturbed(t *testing.T, r *rand.Rand, w *CaseWriter, label string, r
 	} else {
 		w.Count("deep_perturbed_rejected")
 	}
-	tabs := c18DeepTables(cdc, st1, holds, d1, d, do)
+	tabs := c18DeepTables(cdc, st1, holds, "[]", d1, d, do)
 	w.Add(fmt.Sprintf("CDeepImport %s\n (%s)\n (%s)\n %s", coqStr(label+" "+what), tabs, d.coq(), obs),
 		map[string]any{"kind": "deep_perturbed_import", "label": label, "perturbation": what, "accepted": accepted})
 	w.Nontrivial(what + fmt.Sprint(accepted))
